@@ -125,7 +125,7 @@ def match_known(f, e):
 
 
 SPEC = dict(
-    props=['props/C13_laue.v', 'props/C13_tools.v'], want={'trace'}, pre_build=pre_build, search=search,
+    props=['props/C13_laue.v', 'props/C13_tools.v'], finding_props=['props/C13_findings.v'], want={'trace'}, pre_build=pre_build, search=search,
     replay_known=replay_known, match_known=match_known,
     rule='theorems: all valid cells, all strains with e_ii > -1, all rotations. Correspondence: generated models of 5 functions x 2 modules vs '
          'implementation on random strains |e| <= 0.1 and oblique cells. Search: round trips, the definition sym(B0 inv(B)) - I, zero strain, '
